@@ -32,7 +32,69 @@ pub fn plan(tier: &str, seed: u64) -> Vec<Batch> {
             lo += chunk;
         }
     }
+    // bounded-preemption enumeration of a canonical two-thread history, first use
+    for uni in [UniCfg::k(), UniCfg::e()] {
+        for dup in [false, true] {
+            let total = 400u64; // upper bound on schedules; surplus indices are no-ops
+            let chunk = 25;
+            let mut lo = 0;
+            while lo < total {
+                v.push(Batch { check: "C16".into(), phase: "preempt".into(), uni: uni.clone().workers(2), seed, lo, hi: lo + chunk, fresh: true, tier: tier.into(), extra: json!({"dup": dup, "two": tier == "thorough"}) });
+                lo += chunk;
+            }
+        }
+    }
     v
+}
+
+/// canonical history: both threads fail, consume their own id, and T1 also
+/// tries T0's id (a double consume across threads)
+pub fn canonical(uni: &UniCfg, dup: bool, script: Vec<crate::sup::Dec>) -> Case {
+    let mut c = Case::new("C16", "preempt", uni.clone());
+    c.fresh = true;
+    let f = |p: &str, slot: usize| {
+        let mut o = OpSpec::new(Op::Resolve { path: p.into(), nofollow: false }).c();
+        o.keep_id = Some(slot);
+        o
+    };
+    let e = |slot: usize| OpSpec::new(Op::ErrorInfo { idslot: slot }).c();
+    c.world = Some(world());
+    c.jobs = vec![vec![f("missing-u0x0", 1), e(1), e(2)], vec![f("missing-u1x0", 2), e(1), e(2)]];
+    c.extra = json!({"expect": [{"slot": 1, "errno": libc::ENOENT, "marker": "missing-u0x0"}, {"slot": 2, "errno": libc::ENOENT, "marker": "missing-u1x0"}]});
+    c.plan.script = script;
+    c.plan.dup_entropy = dup;
+    c
+}
+
+/// schedule number k of the enumeration (None when k is past the end):
+/// 0 = T0 then T1; 1 = T1 then T0; then one preemption of T0 at step s, one of
+/// T1 at step s; (two) pairs
+pub fn schedule(k: u64, two: bool) -> Option<Vec<crate::sup::Dec>> {
+    use crate::sup::Dec;
+    let n = 60u64; // more than either thread's trace on both backends in a first-use run is cut off by "ignored if not runnable"
+    let sw = |step: u64, to: usize| Dec { step: step as usize, switch_to: Some(to), ..Default::default() };
+    if k == 0 {
+        return Some(vec![]);
+    }
+    if k == 1 {
+        return Some(vec![sw(0, 1)]);
+    }
+    let k = k - 2;
+    if k < n {
+        return Some(vec![sw(k + 1, 1)]);
+    }
+    let k = k - n;
+    if k < n {
+        return Some(vec![sw(0, 1), sw(k + 1, 0)]);
+    }
+    let k = k - n;
+    if two && k < 280 {
+        // a sample of two-preemption schedules
+        let s1 = 1 + (k % 20) * 3;
+        let s2 = s1 + 1 + (k / 20) * 4;
+        return Some(vec![sw(s1, 1), sw(s2, 0)]);
+    }
+    None
 }
 
 pub fn world() -> WorldSpec {
@@ -280,6 +342,14 @@ pub fn run(u: &mut Universe, b: &Batch, st: &mut Stats) {
                 Some(c) => c,
                 None => return,
             }
+        } else if b.phase == "preempt" {
+            match schedule(idx, b.extra["two"].as_bool().unwrap_or(false)) {
+                Some(s) => {
+                    st.count("preempt.schedules_run", 1);
+                    canonical(&b.uni, b.extra["dup"].as_bool().unwrap_or(false), s)
+                }
+                None => continue,
+            }
         } else {
             gen_case(b.seed, idx, &b.uni, b.fresh)
         };
@@ -316,7 +386,13 @@ pub fn finalise(tier: &str, seed: u64, res: coord::CheckResult) -> i32 {
             "histories are bounded to 26 operations for the linearizability search".into(),
         ],
         false,
-        &|b, run| Some(gen_case(b.seed, run, &b.uni, b.fresh)),
+        &|b, run| {
+            if b.phase == "preempt" {
+                schedule(run, b.extra["two"].as_bool().unwrap_or(false)).map(|s| canonical(&b.uni, b.extra["dup"].as_bool().unwrap_or(false), s))
+            } else {
+                Some(gen_case(b.seed, run, &b.uni, b.fresh))
+            }
+        },
     )
     .exit_code
 }
